@@ -568,6 +568,7 @@ type FuncContract struct {
 	Assumed    bool   // iface/extern: contract is an assumption
 	Kind       string // func | iface | extern
 	Asserts    []*AtAssert
+	SyncGo      [][2]int // {go ordinal, select ordinal}: the goroutine has finished when the select returns
 	ReplayHints []string // extra candidate strings for the bounded replay search
 	ReplayChecks []*Clause // executable oracle clauses used only by replay tests (never proof obligations)
 	OnlyCalls  []string // if set: every call with possible effects must be to one of these callees
@@ -644,7 +645,7 @@ func ParseContractFile(path string) (*ContractFile, error) {
 	// First join continuation lines.  A //@ line starts a new clause if its
 	// first word is a keyword; otherwise it continues the previous clause.
 	keywords := map[string]bool{"func": true, "iface": true, "extern": true, "requires": true, "ensures": true, "loop": true,
-		"calls": true, "spec": true, "axiom": true, "lemma": true, "ghost": true, "modifies": true, "alias": true, "pure": true, "locals": true, "end": true, "at": true, "only": true, "replay": true}
+		"calls": true, "spec": true, "axiom": true, "lemma": true, "ghost": true, "modifies": true, "alias": true, "pure": true, "locals": true, "end": true, "at": true, "only": true, "replay": true, "sync": true}
 	var raws []rawClause
 	for i, line := range strings.Split(string(data), "\n") {
 		tl := strings.TrimSpace(line)
@@ -862,6 +863,15 @@ func ParseContractFile(path string) (*ContractFile, error) {
 					cur.Modifies = append(cur.Modifies, f)
 				}
 			}
+		case strings.HasPrefix(body, "sync go#"):
+			if cur == nil {
+				return nil, fmt.Errorf("%s:%d: clause outside func", path, rc.line)
+			}
+			var g, sl int
+			if _, err := fmt.Sscanf(body, "sync go#%d at select#%d", &g, &sl); err != nil {
+				return nil, fmt.Errorf("%s:%d: bad sync clause", path, rc.line)
+			}
+			cur.SyncGo = append(cur.SyncGo, [2]int{g, sl})
 		case strings.HasPrefix(body, "replay check"):
 			if cur == nil {
 				return nil, fmt.Errorf("%s:%d: clause outside func", path, rc.line)
